@@ -125,6 +125,13 @@ def monitor(pid, year, base, assign, r, asked):
         add(monitors.c12_store(r))
     elif pid == 'C13':
         add(monitors.c13(r, {}))
+    elif pid == 'C02':
+        from hv import c02oracle
+        errs, st = c02oracle.check_solution(year, r.solution, inputs=r.final_inputs,
+                                            partial=(r.exc is not None or not r.verdict))
+        cnt['violating_lines'] = len(errs)
+        viols.extend((k, m, dict(kind=k)) for k, m in c02oracle.throttle(year, base.name, errs))
+        cnt.update(st)
     return viols, cnt
 
 
